@@ -36,6 +36,18 @@ class DocPart(C9.WireC09):
     here as a content mismatch, in addition to breaking `wire_consts_documented`)"""
     family = "doc"
 
+    def oracle(self, hist, impl_out):
+        # the round-trip checks inside `ser` belong to C09; here only: the image exists and its layout is the documented one
+        # (that is the model comparison) and nothing throws
+        bad = []
+        for i, (op, o) in enumerate(zip(hist, impl_out)):
+            w = op.split()
+            if o.strip() == "throw":
+                bad.append(("%s/unexpected-throw/%s" % (self.name, w[0]), op[:120], i))
+            elif w[0] == "ser" and L.parse_img(o) is None:
+                bad.append(("%s/bad-observation" % self.name, o[:120], i))
+        return bad
+
 
 class ThetaDoc(DocPart):
     name = "theta"
